@@ -63,7 +63,7 @@ Print Assumptions C14_old_code_refuted.
 
 (* Segmentation independence is false of the code (also after the repairs): the same bytes cut inside the
    value of `sid` save a different configuration (the SSID is lost).  Known finding
-   `request-body-split-across-tcp-segments`. *)
+   `request-split-across-tcp-segments`. *)
 Theorem C14_segmentation_refuted :
   let cut := len req_hdr + 5 in
   take cut wit_req ++ drop cut wit_req = wit_req /\
